@@ -369,13 +369,16 @@ ERRORS = (Exception,)
 STEP_LIMIT = 400_000  # Python-side work of one request on <=10 nodes (adapter glue and Python bodies); Rust code is not counted
 
 
+_limit = [STEP_LIMIT]
+
+
 def guarded(fn, *a, **k):
     """Run fn under a step budget; convert a Rust panic (BaseException subclass named PanicException) into a RuntimeError."""
     try:
-        with budget.steps(STEP_LIMIT):
+        with budget.steps(_limit[0]):
             return fn(*a, **k)
     except budget.StepBudgetExceeded:
-        raise RuntimeError(f"did not return within {STEP_LIMIT} Python-side events") from None
+        raise RuntimeError(f"did not return within {_limit[0]} Python-side events") from None
     except (KeyboardInterrupt, SystemExit, GeneratorExit):
         raise
     except Exception:
@@ -387,6 +390,13 @@ def guarded(fn, *a, **k):
 def execute(case) -> Outcome:
     import importlib
 
+    if case.get("path_n"):
+        # one path of path_n nodes, written as a rule instead of a million-entry list (sizes beyond the generic functions'
+        # default iteration limit)
+        pn = case["path_n"]
+        w = [1.0] if case["fn"] == "dijkstra_edges" else []
+        case = dict(case, n=pn, edges=[[i, i + 1] + w for i in range(pn - 1)])
+    _limit[0] = STEP_LIMIT + 60 * (case["n"] + len(case["edges"]))  # small cases keep the flat budget
     o = Outcome()
     rmod = importlib.import_module("solvor.rust")
     avail = rmod.rust_available()
